@@ -130,6 +130,10 @@ class GSim(mosaik_api_v3.Simulator):
             # a second model whose attribute facts differ from M's: 'nope' exists, i/ti swap trigger-ness, po/eo swap persistence
             self.meta['models']['P'] = {'public': True, 'params': [], 'attrs': ['i', 'ti', 'po', 'eo', 'nope'],
                                         'trigger': ['i'], 'non-persistent': ['po', 'nope']}
+        if self.beh.get('any_inputs_model'):
+            # a model that accepts any input (any_inputs) and leaves trigger / non-trigger to the type's defaults:
+            # for a hybrid simulator every input of it is a non-trigger input
+            self.meta['models']['A'] = {'public': True, 'params': [], 'attrs': ['po', 'eo'], 'any_inputs': True}
         self.count = {}
         return self.meta
 
@@ -221,7 +225,7 @@ def build_world(case, cache=True, rev=False, debug=False):
 
     def start(i):
         mf = world.start('S', sim_id=f'S{i}', beh=copy.deepcopy(case['beh'][i]))
-        ents[i] = mf.P().children[0] if case['beh'][i].get('parent_model') else mf.M()
+        ents[i] = mf.P().children[0] if case['beh'][i].get('parent_model') else mf.A() if case['beh'][i].get('any_inputs_model') else mf.M()
 
     def visit(path):
         here = [i for i in range(n) if grp[i] == path]
